@@ -217,8 +217,9 @@ func runC16(e *Env) {
 				body = []byte(`[1,2,3]`)
 				kind, desc = 1, "top-level array"
 			case 3:
-				body = []byte(`"just a string"`)
-				kind, desc = 1, "top-level string"
+				tops := []string{`"just a string"`, `null`, ` null `, `17`, `true`, `-1.5e3`}
+				body = []byte(tops[e.P(len(tops))])
+				kind, desc = 1, "non-object top level: "+string(body)
 			case 4:
 				pad := []int{1, 40, 600, 5000}[e.P(4)]
 				body = append(body, bytes.Repeat([]byte{' '}, pad)...)
